@@ -241,3 +241,214 @@ def check_hmac(ck_ob, mod, label):
     ck_ob(ok, "SEQ", f.name, "one-shot[%s]" % label, "hmac(out,key,keylen,in,inlen) = init(key); update(in); finalize(key,out); wipe of the local state",
           "one-shot HMAC is %s" % [(e[2], e[3]) for e in ev], relpath("%s:%d" % (f.file, f.line)))
     return n + 3
+
+
+# ---------------------------------------------------------------------------
+# HKDF (RFC 5869 over TinyJAMBU-HMAC, 32-byte blocks, 8-bit block counter)
+
+def check_hkdf(ck_ob, mod, label):
+    ST = ("arg", 0)
+    fld = {m["name"]: m for m in mod.composites["tinyjambu_hkdf_state_p_t"]["members"]}
+    PRK, OUTF, CNT, POSN = fld["prk"]["offset"], fld["out"]["offset"], fld["counter"]["offset"], fld["posn"]["offset"]
+    if (fld["prk"]["size"], fld["out"]["size"]) != (32, 32):
+        raise Broken("HKDF private state layout changed: %s" % {k: (v["offset"], v["size"]) for k, v in fld.items()})
+    fe = mod.fn("tinyjambu_hkdf_expand")
+    ck_ob(fld["counter"]["size"] == 1, "REFUSE", fe.name, "counter-width[%s]" % label, "the block counter is one byte: it reaches the terminal value 0 after 255 blocks (255 * 32 = 8160 bytes)",
+          "the block counter is %d bytes wide: it does not wrap after 255 blocks, so requests beyond 8160 bytes are no longer refused (and only its low byte is absorbed as n)" % fld["counter"]["size"],
+          relpath("%s:%d" % (fe.file, fe.line)))
+    if fld["counter"]["size"] != 1 or fld["posn"]["size"] != 1:
+        return 1
+    icells = lambda ob, off, n: ob == ST and (off, n) in ((CNT, 1), (POSN, 1))
+    n = 0
+    # ---- one-shot
+    f = mod.fn("tinyjambu_hkdf")
+    w0 = relpath("%s:%d" % (f.file, f.line))
+    ex = irx.Exec(f, Handler(), havoc="auto", auto=True)
+    ps = ex.run()
+    oli = ("n", f.param_index("outlen"))
+    seen = set()
+    for p in ps:
+        ev = calls(p)
+        rng = ex._range(p, Lf.s(oli))
+        ret = p.end[1]
+        rc = ex.subst(p, ret).const() if (ret is not None and not is_word(ret)) else None
+        if not ev:
+            seen.add("refuse")
+            outs = [e for e in p.events if e[0] in ("out", "out-sym", "VARMEM")]
+            ck_ob(rng[0] == 8161 and rc is not None and (rc & 0xFFFFFFFF) == 0xFFFFFFFF and not outs, "CAP", f.name, "refuse-above-8160[%s]" % label,
+                  "outlen > 8160 (= 255 * 32): returns -1, writes nothing, calls nothing", "refusal class is outlen >= %s, returns %s, writes %s: the 8160-byte cap is not enforced as documented" % (rng[0], rc, outs[:2]), w0)
+        else:
+            seen.add("ok")
+            st = ev[0][3][0] if ev else ""
+            A = lambda nm: repr(Lf.s(irx.argsym(f, f.param_index(nm))))
+            okseq = [e[2] for e in ev] == ["tinyjambu_hkdf_extract", "tinyjambu_hkdf_expand", "tinyjambu_clean"] and st.startswith("alloca") \
+                and ev[0][3] == (st, A("key"), A("keylen"), A("salt"), A("saltlen")) and ev[1][3] == (st, A("info"), A("infolen"), A("out"), A("outlen")) \
+                and ev[2][3] == (st, str(mod.typedef_size("tinyjambu_hkdf_state_t")))
+            ck_ob(okseq and rng[1] == 8160 and rc == 0, "CAP", f.name, "accept-up-to-8160[%s]" % label, "outlen <= 8160: extract(key,salt); expand(info,out,outlen); wipe; returns 0",
+                  "accepting class is outlen <= %s with events %s returning %s" % (rng[1], [(e[2], e[3]) for e in ev], rc), w0)
+    ck_ob(seen == {"refuse", "ok"}, "CAP", f.name, "two-classes[%s]" % label, "exactly the two classes <= 8160 / > 8160", "classes found: %s" % sorted(seen), w0)
+    n += 3
+    # ---- extract
+    f = mod.fn("tinyjambu_hkdf_extract")
+    w0 = relpath("%s:%d" % (f.file, f.line))
+    ex = irx.Exec(f, Handler(), havoc="auto", auto=True, int_cells=icells)
+    ps = ex.run()
+    ok = len(ps) == 1 and ps[0].end[0] == "ret"
+    if ok:
+        p = ps[0]
+        ev = calls(p)
+        A = lambda nm: repr(Lf.s(irx.argsym(f, f.param_index(nm))))
+        h = ev[0][3][0] if ev else ""
+        ok = [e[2] for e in ev] == ["tinyjambu_hmac_init", "tinyjambu_hmac_update", "tinyjambu_hmac_finalize", "tinyjambu_hmac_free"] and h.startswith("alloca") \
+            and ev[0][3] == (h, A("salt"), A("saltlen")) and ev[1][3] == (h, A("key"), A("keylen")) \
+            and ev[2][3] == (h, A("salt"), A("saltlen"), repr(Lf({ST: 1, 1: PRK}) if PRK else Lf.s(ST))) and ev[3][3] == (h,)
+        okc = p.lfmem.get((ST, CNT, 1)) == Lf.c(1) and p.lfmem.get((ST, POSN, 1)) == Lf.c(32)
+        ck_ob(ok, "SEQ", f.name, "extract[%s]" % label, "PRK = HMAC(salt, IKM): init(salt); update(key); finalize(salt -> prk); free",
+              "extract is %s" % [(e[2], e[3]) for e in ev], w0)
+        ck_ob(okc, "SEQ", f.name, "extract-counters[%s]" % label, "block counter = 1, nothing buffered (position 32)",
+              "after extract counter=%s position=%s (expected 1 and 32)" % (p.lfmem.get((ST, CNT, 1)), p.lfmem.get((ST, POSN, 1))), w0)
+    else:
+        ck_ob(False, "SEQ", f.name, "extract[%s]" % label, "", "extract is not a straight path", w0)
+    n += 2
+    # ---- expand
+    f = mod.fn("tinyjambu_hkdf_expand")
+    w0 = relpath("%s:%d" % (f.file, f.line))
+    INFO, INFOLEN = repr(Lf.s(("arg", f.param_index("info")))), repr(Lf.s(("n", f.param_index("infolen"))))
+    OUTP = ("arg", f.param_index("out"))
+    OLEN = ("n", f.param_index("outlen"))
+    starts = []
+    for pz in range(0, 33):
+        def setup(ex_, path, pz=pz):
+            path.lfmem[(ST, POSN, 1)] = Lf.c(pz)
+            path.start_lfmem = dict(path.lfmem)
+        starts.append(("posn=%d" % pz, setup))
+    ex = irx.Exec(f, Handler(), havoc="auto", auto=True, int_cells=icells, starts=starts, split_max=33)
+    ps = ex.run(max_paths=6000)
+    no_data_branches(f, ps)
+    if len(f.loops) != 1:
+        raise Broken("tinyjambu_hkdf_expand: expected one loop")
+    hdr = f.loops[0]["header"]
+    ptrs = [f.insts[i] for i in f.blocks[hdr].insts if f.insts[i].op == "phi" and (f.insts[i].get("ty") or "").endswith("*")]
+    ints = [f.insts[i] for i in f.blocks[hdr].insts if f.insts[i].op == "phi" and not (f.insts[i].get("ty") or "").endswith("*")]
+    if len(ptrs) != 1 or len(ints) != 1:
+        raise Broken("tinyjambu_hkdf_expand: expected an output cursor and a remaining length at the loop head")
+    cur, rem = ("hdp", ptrs[0].id), ("hd", ints[0].id)
+
+    def c(rule, cond, construct, ok_, bad_, where=None):
+        return ck_ob(cond, rule, f.name, "%s[%s]" % (construct, label), ok_, bad_, where or w0)
+    seen_entry, seen_iter = set(), set()
+    for p in ps:
+        cls = [e for e in p.events if e[0] == "class" and e[1] == "start"]
+        ev = calls(p)
+        var = [e for e in p.events if e[0] == "VARMEM"]
+        outs = mode.outs_of(p)
+        nar = [e for e in p.events if e[0] == "narrowing"]
+        if cls:
+            pz = int(cls[0][2].split("=")[1])
+            avail = 32 - pz
+            if p.end[0] == "ret":
+                ln = p.eqs.get(OLEN)
+                if ln is None:
+                    c("STREAM", False, "leftover-class(posn=%d)" % pz, "", "a path returns without fixing the requested length (conds %s)" % [(x[0], repr(x[1]), x[2]) for x in p.conds])
+                    continue
+                seen_entry.add((pz, "short", ln))
+                okb = all(outs.get((OUTP, i)) == list(gf2.sym_word(("mem", ST, OUTF + pz + i), 8)) for i in range(ln)) and not [k for k in outs if k[0] == OUTP and k[1] >= ln]
+                c("STREAM", okb and not ev and not var and ln <= avail, "leftover-short(posn=%d,len=%d)" % (pz, ln),
+                  "request of %d <= %d left-over bytes is served from the last block at offset %d, nothing generated" % (ln, avail, pz),
+                  "short request: output is not last_block[%d..%d) / extra calls %s" % (pz, pz + ln, [e[2] for e in ev]))
+                c("STREAM", p.lfmem.get((ST, POSN, 1)) == Lf.c(pz + ln), "leftover-posn(posn=%d,len=%d)" % (pz, ln), "position advances to %d" % (pz + ln),
+                  "position becomes %s, expected %d: left-over bytes are repeated or skipped" % (p.lfmem.get((ST, POSN, 1)), pz + ln))
+                rv = ex.subst(p, p.end[1]).const() if not is_word(p.end[1]) else None
+                c("STREAM", rv == 0, "leftover-ret(posn=%d,len=%d)" % (pz, ln), "returns 0", "returns %s" % rv)
+                n += 3
+            elif p.end[0] == "loop-entry":
+                seen_entry.add((pz, "loop"))
+                okb = all(outs.get((OUTP, i)) == list(gf2.sym_word(("mem", ST, OUTF + pz + i), 8)) for i in range(avail)) and not [k for k in outs if k[0] == OUTP and k[1] >= avail]
+                c("STREAM", okb and not ev and not var, "leftover-all(posn=%d)" % pz, "the %d left-over bytes are copied out first" % avail, "left-over bytes not copied from last_block[%d..32)" % pz)
+                ic, ir_ = p.env.get(("init", ptrs[0].id)), p.env.get(("init", ints[0].id))
+                wc = Lf({OUTP: 1, 1: avail}) if avail else Lf.s(OUTP)
+                wr = Lf({OLEN: 1, 1: -avail}) if avail else Lf.s(OLEN)
+                c("STREAM", ic == wc and ir_ == wr, "leftover-cursor(posn=%d)" % pz, "block loop starts at out + %d with outlen - %d left" % (avail, avail), "block loop starts with cursor %s / remaining %s" % (ic, ir_))
+                c("STREAM", p.lfmem.get((ST, POSN, 1)) == Lf.c(32), "leftover-consumed(posn=%d)" % pz, "position = 32 (last block used up)", "position is %s when the block loop starts" % p.lfmem.get((ST, POSN, 1)))
+                n += 3
+            continue
+        # generic iteration from the loop head
+        cnt0 = p.start_lfmem.get((ST, CNT, 1))
+        if cnt0 is None:
+            cnt0 = Lf.s(("fld", ST, CNT, p.objgen.get(ST, 0)))
+        cntc = ex.subst(p, cnt0).const()
+        rv = ex.subst(p, p.end[1]).const() if (p.end[0] == "ret" and p.end[1] is not None and not is_word(p.end[1])) else None
+        if p.end[0] == "ret" and not ev and not var and rv == 0 and not outs:
+            seen_iter.add("done")
+            continue   # remaining == 0: loop not entered
+        if not ev:
+            # refusal: counter == 0
+            seen_iter.add("refuse")
+            okz = cntc == 0 and len(var) == 1 and var[0][2] == "memset-var" and var[0][3][0] == repr(Lf.s(cur)) and var[0][3][1] == "0" and var[0][3][2] == repr(Lf.s(rem)) and not outs
+            c("REFUSE", okz and rv is not None and (rv & 0xFFFFFFFF) == 0xFFFFFFFF, "refuse-zero-fill", "block counter 0 (255 blocks used): the whole remaining output is zero-filled and -1 returned",
+              "terminal state: counter class %s, fills %s, returns %s: key material beyond 8160 bytes is not refused with a zeroed buffer" % (cntc, [v_[3] for v_ in var], rv))
+            n += 1
+            continue
+        # a block is generated
+        first = cntc == 1
+        names = [e[2] for e in ev]
+        want = ["tinyjambu_hmac_init"] + ([] if first else ["tinyjambu_hmac_update"]) + ["tinyjambu_hmac_update", "tinyjambu_hmac_update", "tinyjambu_hmac_finalize", "tinyjambu_hmac_free"]
+        seen_iter.add("first" if first else "next")
+        if names != want:
+            c("SEQ", False, "block-sequence(%s)" % ("first" if first else "next"), "", "block generation is %s, expected %s" % (names, want))
+            continue
+        H = ev[0][3][0]
+        prk0 = tuple(tuple(hashbyte(p, ST, PRK + i)) for i in range(32))
+        out0 = tuple(tuple(hashbyte(p, ST, OUTF + i)) for i in range(32))
+        k = 0
+        okA = ev[0][3][1] == repr(Lf.s(ST) if PRK == 0 else Lf({ST: 1, 1: PRK})) and ev[0][3][2] == "32" and ev[0][4] == prk0 and H.startswith("alloca")
+        c("SEQ", okA, "block-key(%s)" % ("first" if first else "next"), "T(n) is keyed with PRK (32 bytes)", "hmac_init is not keyed with the 32-byte PRK: %s" % (ev[0][3],))
+        k = 1
+        if not first:
+            okP = ev[1][3] == (H, repr(Lf({ST: 1, 1: OUTF})), "32") and ev[1][4] == out0
+            c("SEQ", okP, "block-prev", "T(n-1) (the previous 32-byte block) is absorbed first for n > 1", "previous block not absorbed as specified: %s" % (ev[1][3],))
+            k = 2
+        okI = ev[k][3] == (H, INFO, INFOLEN)
+        cell = gf2.sym_word(("lfcell", repr(ex.subst(p, cnt0))), 8) if cntc is None else gf2.const_word(cntc, 8)
+        okC = ev[k + 1][3][0] == H and ev[k + 1][3][1] == repr(Lf({ST: 1, 1: CNT})) and ev[k + 1][3][2] == "1" and ev[k + 1][4] == (tuple(cell),)
+        okF = ev[k + 2][3] == (H, ev[0][3][1], "32", repr(Lf({ST: 1, 1: OUTF}))) and ev[k + 3][3] == (H,)
+        c("SEQ", okI and okC and okF, "block-body(%s)" % ("first" if first else "next"), "then info, then the one-byte counter n (before it is incremented); result -> the block buffer; HMAC state freed",
+          "block body differs: info %s, counter byte %s (data %s), finalize %s" % (ev[k][3], ev[k + 1][3], ev[k + 1][4], ev[k + 2][3]))
+        # counter increment (mod 256)
+        newc = p.lfmem.get((ST, CNT, 1))
+        okinc = False
+        if cntc is not None:
+            okinc = newc == Lf.c((cntc + 1) & 0xFF)
+        else:
+            okinc = newc is not None and list(newc) == [("mod", 8, repr(ex.subst(p, cnt0).add(Lf.c(1))))] or newc == ex.subst(p, cnt0).add(Lf.c(1))
+        c("REFUSE", okinc and all(e[2] == 8 for e in nar), "counter-increment(%s)" % ("first" if first else "next"), "8-bit block counter incremented by exactly 1 (wraps to the terminal value 0 after block 255)",
+          "block counter after a block is %s (from %s): not an 8-bit increment by one, the 255-block limit is not enforced" % (newc, cnt0))
+        # copy out min(32, remaining) bytes of the new block
+        mac = bytes_sym("MAC", ev[k + 2][1], 32)
+        if p.end[0] == "backedge":
+            ln = 32
+            okg = any(nm_ is not None and nm_[0] == Lf.s(rem) and nm_[1] in ("uge",) and nm_[2] == 32 for nm_ in [ex._norm(*cc) for cc in p.conds]) or ex._range(p, Lf.s(rem))[0] >= 32
+            bc, br = p.env.get(("back", ptrs[0].id)), p.env.get(("back", ints[0].id))
+            c("STREAM", bc == Lf({cur: 1, 1: 32}) and br == Lf({rem: 1, 1: -32}) and okg, "block-advance", "a full block: cursor += 32, remaining -= 32 (only when >= 32 remain)",
+              "after a full block cursor=%s remaining=%s guard>=32:%s" % (bc, br, okg))
+        else:
+            ln = p.eqs.get(rem)
+            if ln is None:
+                c("STREAM", False, "last-block-class", "", "last partial block: remaining length not fixed by the path conditions")
+                continue
+        okb = all(outs.get((cur, i)) == list(mac[i]) for i in range(ln)) and not [kk for kk in outs if kk[0] == cur and kk[1] >= ln]
+        c("STREAM", okb, "block-copy(%s,%d)" % ("first" if first else "next", ln), "the first %d byte(s) of the new block are copied to the output cursor" % ln, "output bytes are not T(n)[0..%d)" % ln)
+        c("STREAM", p.lfmem.get((ST, POSN, 1)) == Lf.c(ln), "block-posn(%s,%d)" % ("first" if first else "next", ln), "position = %d bytes of the block handed out" % ln,
+          "position becomes %s, expected %d" % (p.lfmem.get((ST, POSN, 1)), ln))
+        n += 6
+    c("STREAM", {pz for (pz, *_r) in seen_entry} == set(range(33)), "classes-position", "all 33 buffer positions analysed", "positions analysed: %s" % sorted({pz for (pz, *_r) in seen_entry}))
+    c("SEQ", {"refuse", "first", "next"} <= seen_iter, "classes-iteration", "iteration classes: refused (counter 0), first block (counter 1), later blocks", "iteration classes found: %s" % sorted(seen_iter))
+    return n + 2
+
+
+def hashbyte(p, obj, off):
+    c_ = p.start_mem.get((obj, off))
+    if c_ is None:
+        g = p.objgen.get(obj, 0)
+        c_ = gf2.sym_word(("mem", obj, off) if not g else ("mem", obj, off, g), 8)
+    return c_
